@@ -26,10 +26,21 @@ PairData(C, D, l) ==
   LET Mc == C.levels[l]  Mf == C.levels[l + 1]  par == C.par[l]  dim == C.dim
       ok == D[l].wf /\ D[l + 1].wf /\ ParShapeOK(Mc, Mf, par, dim)
   IN [ok |-> ok, CS |-> IF ok THEN [e \in 1..(dim + 1) |-> ChildSeq(Mf, par, e - 1)] ELSE << >>]
-Derived(C) ==
+\* cases of RootMeshNode::refine_unique(AdaptMode) (harness/c10_adapt.cpp): C.levels is the chain refined with the mode,
+\* C.adapt.none[l] the unadapted refinement of C.levels[l], C.par[l] the origin certificate of THAT pair.  StepCase(C, l) is
+\* the pair (C.levels[l], C.adapt.none[l]) as an ordinary two-level case, so that every predicate of the plain refinement
+\* relation is judged on it unchanged.
+IsAdapt(C) == "adapt" \in DOMAIN C
+StepCase(C, l) == [fam |-> C.fam, dim |-> C.dim, geo |-> C.geo, levels |-> << C.levels[l], C.adapt.none[l] >>, par |-> << C.par[l] >>]
+DerivedPlain(C) ==
   LET L == Len(C.levels)
       D == [l \in 1..L |-> LevelData(C, l)]
   IN [D |-> D, P |-> [l \in 1..(L - 1) |-> PairData(C, D, l)]]
+Derived(C) ==
+  IF IsAdapt(C)
+  THEN LET L == Len(C.levels)  D == [l \in 1..L |-> LevelData(C, l)]
+       IN [D |-> D, P |-> << >>, A |-> [l \in 1..(L - 1) |-> DerivedPlain(StepCase(C, l))]]
+  ELSE DerivedPlain(C)
 
 Init == ci \in 1..Len(Cases) /\ drv = Derived(Cases[ci])
 Next == UNCHANGED <<ci, drv>>
@@ -108,9 +119,49 @@ PermFails(C) ==
                   ELSE Fail(FALSE, "PartTargetsOK", 0, Mo.parts[j].name) : j \in 1..Len(Mo.parts)}
       ELSE {} }
 
+\* one step of an adapt case (l 1-based: C.levels[l] -> C.levels[l + 1]); failures are reported at the fine level (0-based: l)
+DualRoundBound == 64      \* admissible distance of a coordinate from the dyadic grid, in units of eps (the division by the
+                          \* number of facets, 6 in 3D, is not exact in floating point)
+Relevel(F, l) == {[p |-> f.p, l |-> l, part |-> f.part] : f \in F}
+AdaptStepFails(C, l) ==
+  LET A == C.adapt  Mc == C.levels[l]  Mf == C.levels[l + 1]  Mn == A.none[l]  Xp == A.pre[l]
+      SC == StepCase(C, l)  DA == drv.A[l]  fam == C.fam  dim == C.dim
+      plain == Relevel(PairFails(SC, DA.D, DA.P, 1), l)
+      ok == DA.D[1].wf /\ DA.D[2].wf /\ DA.P[1].ok /\ drv.D[l + 1].wf
+      chl == ok /\ Counts(Mc, Mn, fam, dim) /\ ChildrenCount(Mc, DA.P[1].CS, fam, dim)
+      ineffect == A.usechart /\ A.chartparts # << >>
+      CV == IF ineffect /\ ok THEN ChartVerts(Mn, TRange(A.chartparts)) ELSE {}
+      tol == IF A.fixed THEN NF(fam, dim, dim - 1) + 1 ELSE 0
+  IN plain \cup
+     (IF ~ok THEN {} ELSE UNION {
+        Fail(SameTopology(Mn, Mf), "AdaptSameTopology", l, ""),
+        Fail(SameParts(Mn, Mf), "AdaptSameParts", l, ""),
+        Fail(A.fixed \/ A.rdef <= DualRoundBound, "ProjOnDyadicGrid", l, ""),
+        Fail(ChartFrame(Mn, Xp, CV), "ChartFrame", l, ""),
+        IF ineffect /\ A.gchart # << >> /\ ~A.prefixed /\ Len(Xp) = Len(Mn.X)
+          THEN Fail(GraphChartRule(Mn, Xp, CV, A.gchart[1], C.K), "GraphChartRule", l, "") ELSE {},
+        IF chl /\ Len(Xp) = Len(Mn.X) /\ Mf.n = Mn.n
+          THEN Fail(DualRule(Mc, DA.P[1].CS, C.par[l], Xp, Mf.X, fam, dim, A.usedual, tol), "DualRule", l, "")
+               \cup (IF C.geo /\ SameTopology(Mn, Mf) THEN Fail(DualVolume(Mf, Xp, fam, dim), "DualVolume", l, "") ELSE {})
+          ELSE {},
+        \* no chart adaption in effect: the step is a plain refinement in every respect
+        IF ~ineffect /\ C.geo /\ SameTopology(Mn, Mf)
+          THEN Fail(Volume(Mc, fam, dim) = Volume(Mf, fam, dim), "VolumePreserved", l, "")
+               \cup Fail(AllCellsValid(Mc, fam, dim) => PositiveOrientation(Mf, fam, dim), "OrientationPreserved", l, "")
+          ELSE {},
+        Fail(C.proj.dualvol_ok[l], "ProjDualVolume", l, ""),
+        IF ~ineffect THEN Fail(C.proj.voldef_ok[l], "ProjVolumePreserved", l, "")
+                          \cup Fail(C.proj.orient_pre[l] => C.proj.orient_fine[l + 1], "ProjOrientationPreserved", l, "")
+        ELSE {} })
+AdaptFails(C) == UNION {AdaptStepFails(C, l) : l \in 1..(Len(C.levels) - 1)}
+
 Verdict(C) ==
   LET L == Len(C.levels) IN
-  UNION {LevelFails(C, drv.D, l) : l \in 1..L} \cup UNION {PairFails(C, drv.D, drv.P, l) : l \in 1..(L - 1)} \cup ProjFails(C) \cup PermFails(C)
+  IF IsAdapt(C)
+  THEN (IF Len(C.adapt.none) = L - 1 /\ Len(C.adapt.pre) = L - 1 /\ Len(C.par) = L - 1
+        THEN UNION {LevelFails(C, drv.D, l) : l \in 1..L} \cup AdaptFails(C)
+        ELSE Fail(FALSE, "MACHINERY:AdaptShape", 0, ""))
+  ELSE UNION {LevelFails(C, drv.D, l) : l \in 1..L} \cup UNION {PairFails(C, drv.D, drv.P, l) : l \in 1..(L - 1)} \cup ProjFails(C) \cup PermFails(C)
 
 Info(C) ==
   LET fam == C.fam  dim == C.dim  M == C.levels[1] IN
